@@ -29,7 +29,7 @@ ASSUMPTIONS = [
 ALPHABET = "device x type x casing x name; graph; registry; hardware list"
 BOUND = {"quick": "VMX singles, pairs, triples (thin), OVF <= 2/2/3, VBox <= 3 disks, PVS <= 5 devices",
          "thorough": "adds all VMX triples over a 6-position grid and OVF with 3 files"}
-EXPECT_OUTCOMES = ["vmx", "vmx-dict", "ovf", "vbox", "pvs", "vmx-encrypted", "ovf-interleaved"]
+EXPECT_OUTCOMES = ["vmx", "vmx-dict", "ovf", "vbox", "pvs", "vmx-encrypted", "ovf-interleaved", "xml-decl"]
 
 BUSES = ["scsi", "sata", "ide", "nvme"]
 TYPES = [None, "scsi-hardDisk", "ata-hardDisk", "disk", "rawDisk", "cdrom-image", "cdrom-raw", "atapi-cdrom"]
@@ -41,7 +41,7 @@ SPECIAL_CHARS = ["\x0b", "\x0c", "\x1c", "\x1d", "\x1e", "\x85", "\u2028", "\u20
 
 
 def shards(tier):
-    out = [{"kind": "vmx1"}, {"kind": "vmx-chars"}, {"kind": "vmx-dict"}, {"kind": "vbox"}, {"kind": "pvs"}, {"kind": "vmx-encrypted"},
+    out = [{"kind": "vmx1"}, {"kind": "vmx-chars"}, {"kind": "xml-decl"}, {"kind": "vmx-dict"}, {"kind": "vbox"}, {"kind": "pvs"}, {"kind": "vmx-encrypted"},
            {"kind": "ovf-interleaved"}]
     out += [{"kind": "vmx2", "slice": [i, 8]} for i in range(8)]
     out += [{"kind": "vmx3", "slice": [i, 4], "full": tier != "quick"} for i in range(4)]
@@ -100,6 +100,14 @@ def run_shard(shard, ctx):
                     "twice": "a" + ch + "b" + ch + "scsi0:1.fileName = \"x.vmdk"}[where]
             run_case({"kind": "vmx", "devs": [[bus, 0, 0, typ, name], ["sata", 1, 1, None, "plain.vmdk"]], "casing": "camel",
                       "extras": 2}, ctx)
+    elif kind == "xml-decl":
+        # the XML documents as text (the declaration's encoding is void for text) and as bytes in the declared encoding,
+        # with non-ASCII disk names
+        for entry, decl, handle in itertools.product(("ovf", "vbox", "pvs"), (None, "UTF-8", "ISO-8859-1", "windows-1252",
+                                                                               "US-ASCII", "UTF-16"), ("text", "bytes")):
+            if handle == "bytes" and decl == "US-ASCII":
+                continue
+            run_case({"kind": "xml-decl", "entry": entry, "decl": decl, "handle": handle}, ctx)
     elif kind == "vmx-dict":
         for c in _dict_cases():
             run_case(c, ctx)
@@ -111,7 +119,9 @@ def run_shard(shard, ctx):
     elif kind == "ovf-interleaved":
         for forms in itertools.product((0, 1, 2), repeat=2):
             for which in ("A-then-B", "B-then-A", "A-B-A"):
-                run_case({"kind": "ovf-interleaved", "forms": list(forms), "which": which}, ctx)
+                # the second document: an OVF 1.x envelope, or one in another namespace (OVF 2.x, none, unrelated)
+                for bns in (None, "http://schemas.dmtf.org/ovf/envelope/2", "", "urn:unrelated"):
+                    run_case({"kind": "ovf-interleaved", "forms": list(forms), "which": which, "bns": bns}, ctx)
     elif kind == "ovf":
         for c in sliced(_ovf_cases(shard["files"]), *shard["slice"]):
             run_case(c, ctx)
@@ -182,6 +192,38 @@ def _do_vmx(case):
     got = _twice(VMX.parse(text).disks)
     exp = _vmx_expected([tuple(d) for d in devs])
     return got, exp, len(devs) > 1 or any(d[3] not in DISK_TYPES for d in devs)
+
+
+def _do_xml_decl(case):
+    from dissect.hypervisor.descriptor.ovf import OVF
+    from dissect.hypervisor.descriptor.pvs import PVS
+    from dissect.hypervisor.descriptor.vbox import VBox
+
+    entry, decl, handle = case["entry"], case["decl"], case["handle"]
+    name = "Größe-0 ñ.vdi" if handle == "text" or decl != "windows-1252" else "Größe-0 ñ€.vdi"
+    head = "" if decl is None else f'<?xml version="1.0" encoding="{decl}"?>'
+    if entry == "ovf":
+        ns = f'xmlns="{NS_OVF}" xmlns:ovf="{NS_OVF}" xmlns:rasd="{NS_RASD}"'
+        body = (f'<Envelope {ns}><References><File ovf:id="file1" ovf:href="{name}"/></References><DiskSection><Info>i</Info>'
+                f'<Disk ovf:diskId="vmdisk1" ovf:fileRef="file1"/></DiskSection><VirtualSystem ovf:id="vm"><VirtualHardwareSection>'
+                f'<Item><rasd:HostResource>ovf:/disk/vmdisk1</rasd:HostResource><rasd:ResourceType>17</rasd:ResourceType></Item>'
+                f'</VirtualHardwareSection></VirtualSystem></Envelope>')
+        cls = OVF
+    elif entry == "vbox":
+        body = (f'<VirtualBox xmlns="http://www.virtualbox.org/" version="1.16-linux"><Machine><MediaRegistry><HardDisks>'
+                f'<HardDisk uuid="{{1}}" location="{name}" format="VDI" type="Normal"/></HardDisks></MediaRegistry></Machine></VirtualBox>')
+        cls = VBox
+    else:
+        body = (f'<ParallelsVirtualMachine schemaVersion="1.0"><Hardware><Hdd id="0"><Index>0</Index><SystemName>{name}</SystemName>'
+                f'</Hdd></Hardware></ParallelsVirtualMachine>')
+        cls = PVS
+    doc = head + body
+    if handle == "text":
+        fh = io.StringIO(doc)
+    else:
+        fh = io.BytesIO(doc.encode({None: "utf-8"}.get(decl, decl)))
+    got = _twice(cls(fh).disks)
+    return got, [name], True
 
 
 def _do_vmx_dict(case):
@@ -265,8 +307,8 @@ def _do_ovf_interleaved(case):
     """Two OVF objects alive at once with the same ids and different files: each answers from its own document."""
     from dissect.hypervisor.descriptor.ovf import OVF
 
-    def doc(tag, form):
-        ns = f'xmlns="{NS_OVF}" xmlns:ovf="{NS_OVF}" xmlns:rasd="{NS_RASD}"'
+    def doc(tag, form, nsuri=NS_OVF):
+        ns = f'xmlns="{nsuri}" xmlns:ovf="{nsuri}" xmlns:rasd="{NS_RASD}"'
         paths = [["ovf:/disk/vmdisk1", "ovf:/disk/vmdisk2"], ["ovf:/file/file1", "ovf:/file/file2"], ["ovf:/disk/vmdisk2", "ovf:/file/file1"]][form]
         items = "".join(f"<Item><rasd:HostResource>{p}</rasd:HostResource><rasd:ResourceType>17</rasd:ResourceType></Item>" for p in paths)
         text = (f'<?xml version="1.0"?><Envelope {ns}><References><File ovf:id="file1" ovf:href="{tag}-disk1.vmdk"/>'
@@ -278,19 +320,34 @@ def _do_ovf_interleaved(case):
         return text, exp
 
     ta, ea = doc("alpha", case["forms"][0])
-    tb, eb = doc("beta", case["forms"][1])
+    bns = case.get("bns")
+    tb, eb = doc("beta", case["forms"][1], NS_OVF if bns is None else bns)
     a = OVF(io.StringIO(ta))
     ga = a.disks()  # lazy
-    b = OVF(io.StringIO(tb))
-    gb = b.disks()
+    if bns is None:
+        b = OVF(io.StringIO(tb))
+        gb = b.disks()
+        lb = lambda: list(gb)  # noqa: E731
+    else:
+        # a document in another namespace: what it yields is not specified here -- only that the first object is unaffected
+        eb = "n/a"
+
+        def lb():
+            try:
+                list(OVF(io.StringIO(tb)).disks())
+            except Exception:
+                pass
+            return "n/a"
+        if case["which"] != "B-then-A":
+            lb()
     if case["which"] == "A-then-B":
-        got = [list(ga), list(gb)]
+        got = [list(ga), lb()]
         exp = [ea, eb]
     elif case["which"] == "B-then-A":
-        got = [list(gb), list(ga)]
+        got = [lb(), list(ga)]
         exp = [eb, ea]
     else:
-        got = [list(ga), list(gb), list(a.disks())]
+        got = [list(ga), lb(), list(a.disks())]
         exp = [ea, eb, ea]
     return got, exp, True
 
